@@ -50,6 +50,12 @@ def case_program(cases, charsigned):
             e = bin_(c["op"], var(a), var(b))
             body.append(s_obs(e if c["t"] == "int" else cast(T("llong"), e)))
             continue
+        if c["k"] == "chain":
+            names = ["%s%d_%d" % (a, i, j) for j in range(len(c["vals"]))]
+            for nm, tn, w in zip(names, c["tys"], c["vals"]):
+                g.append(s_decl(nm, T(tn), i_e({"k": "lit", "t": T(tn), "v": w})))
+            body.append(s_obs(minic.chain(c["ops"], [var(nm) for nm in names])))
+            continue
         g.append(s_decl(a, T(c["lt"]), i_e({"k": "lit", "t": T(c["lt"]), "v": c["a"]})))
         if c["k"] == "bincast":
             g.append(s_decl(b, T(c["lt"]), i_e({"k": "lit", "t": T(c["lt"]), "v": c["b"]})))
@@ -182,6 +188,12 @@ def opcases(ctx, objdir, runtime):
                 if got != exp[i:pos]:
                     got = got[0] if got and len(got) == 1 else got
                     key = "opcase:%s:%s:%s:%s" % (c["k"], c.get("op", "cast"), c["lt"], c.get("rt", ""))
+                    if c["k"] == "chain":
+                        key = "opcase:chain:%s" % " ".join(c["ops"])
+                        ctx.violation(key, "e1 %s on %s with operands %s of types %s (written without parentheses; grammar tree %s): IL computes %s, C semantics give %s" % (
+                            " ".join("%s e%d" % (o, n + 2) for n, o in enumerate(c["ops"])), t, [from_w8(w) for w in c["vals"]], c["tys"], c["tree"], got, exp[i:pos]),
+                            {"case": c, "target": t, "source": src})
+                        continue
                     ctx.violation(key, "%s %s (%s %s, %s %s) on %s: IL computes %s, C semantics give %s" % (
                         c["k"], c.get("op", ""), c["lt"], c.get("a") and from_w8(c["a"]), c.get("rt", ""), from_w8(c.get("b", [0] * 8)), t, got, exp[i:pos]),
                         {"case": c, "target": t, "source": src})
@@ -191,7 +203,7 @@ def opcases(ctx, objdir, runtime):
                 if alines != exp:
                     raise vlib.MachineryError("SPEC-AUDIT: %s disagrees with CSem (rc=%s %s) on\n%s\nexpected %s got %s" % (cc, rc, se, src[:3000], exp[:80], alines[:80]))
         for c in chunk:
-            ctx.count("%s|%s|%s|%s|%s|%s|%s|%s" % (c["k"], c.get("op"), c["lt"], c.get("rt"), c.get("mt"), c.get("a") or c.get("fa") or c.get("xa"), c.get("b") or c.get("xb"), t),
+            ctx.count("%s|%s|%s|%s|%s|%s|%s|%s" % (c["k"], c.get("op"), c["lt"], c.get("rt"), c.get("mt"), c.get("a") or c.get("fa") or c.get("xa") or c.get("ops"), c.get("b") or c.get("xb") or c.get("vals"), t),
                       nontrivial=(c.get("a") != [0] * 8))
         ctx.validated(1)
     ctx.cov["opcase_programs"] = len(jobs)
